@@ -178,6 +178,18 @@ func finalizeQuery(q *Query) {
 	for _, l := range lits {
 		extra = append(extra, litFacts(l)...)
 	}
+	// library case mapping on literals that are already in the target case
+	for _, fn := range []string{"ext:strings.ToLower", "ext:strings.ToUpper"} {
+		if _, used := TP.UFs[fn]; !used {
+			continue
+		}
+		for _, l := range lits {
+			lit := strLitOf[l]
+			if fn == "ext:strings.ToLower" && strings.ToLower(lit) == lit || fn == "ext:strings.ToUpper" && strings.ToUpper(lit) == lit {
+				extra = append(extra, Eq(UF(fn, SStr, l), l))
+			}
+		}
+	}
 	q.Assumes = append(extra, q.Assumes...)
 }
 
@@ -247,6 +259,58 @@ func groupObls(obls []*Obligation) []*oblGroup {
 	return out
 }
 
+// vacuityGuard: a discharged contract obligation counts only if at least one of its instances has
+// satisfiable assumptions (otherwise contradictory assumptions "proved" it).
+func (cr *checkRun) vacuityGuard(groups []*oblGroup) {
+	var wg sync.WaitGroup
+	sem := make(chan struct{}, 16)
+	for _, g := range groups {
+		switch g.Kind {
+		case "pre", "post", "inv-entry", "inv-preserved", "monitor", "decreases", "frame", "lock", "immutable":
+		default:
+			continue
+		}
+		if g.Status != "discharged" {
+			continue
+		}
+		var cands []*Obligation
+		for _, o := range g.Insts {
+			if o.Q != nil {
+				cands = append(cands, o)
+			}
+		}
+		if len(cands) == 0 {
+			continue // discharged by simplification on every path
+		}
+		wg.Add(1)
+		go func(g *oblGroup, cands []*Obligation) {
+			defer wg.Done()
+			sem <- struct{}{}
+			defer func() { <-sem }()
+			tries := 0
+			for _, o := range cands {
+				if tries >= 4 {
+					return // undetermined after several infeasible paths: give the benefit of the doubt
+				}
+				tries++
+				q := &Query{Assumes: o.Q.Assumes, Goal: False}
+				text, ok := q.smtText(false, "")
+				if !ok {
+					return
+				}
+				st, _, _ := runSolver(solvers[0], text, cr.smtDir, fmt.Sprintf("vac%p", o), cr.timeoutMs/2)
+				if st != "unsat" {
+					return // sat or unknown: not vacuous
+				}
+			}
+			if tries == len(cands) {
+				g.Status = "vacuous"
+			}
+		}(g, cands)
+	}
+	wg.Wait()
+}
+
 func cmdCheck(args []string) {
 	fs := flag.NewFlagSet("check", flag.ExitOnError)
 	prop := fs.String("property", "", "property id")
@@ -287,6 +351,7 @@ func runCheck(prop, tier string, writeBaseline, verbose bool, t0 time.Time) int 
 	tGen := time.Since(t0)
 	cr.solveAll()
 	groups := groupObls(cr.obls)
+	cr.vacuityGuard(groups)
 
 	var base map[string]*BaselineEntry
 	_ = loadJSON(filepath.Join(verifDir, "baseline", "obligations.json"), &base)
